@@ -143,7 +143,36 @@ class C17(Monitor):
                    "dyadic Pythagorean discs must be inside", "containment is checked for soundness only (no completeness claim)"]
 
 
+    SMALL = None
+    exhaustive_what = ("small scope: every unordered pair of shapes among all rectangles with corners in {0..3}^2 (any corner order) "
+                       "and all discs with centre in {0..3}^2 and radius in {0, 0.5, .., 3}: membership on probe points, corner "
+                       "order, containment soundness in both directions")
+
+    @classmethod
+    def small_shapes(cls):
+        """Small scope: every rectangle with corners in {0..3}^2 (any corner order) and every disc with centre in {0..3}^2 and
+        radius in {0, 0.5, ..., 3}."""
+        if cls.SMALL is None:
+            v = [0.0, 1.0, 2.0, 3.0]
+            shapes = [("rect", [a, b, c, d]) for a in v for b in v for c in v for d in v]
+            shapes += [("circ", [a, b, r / 2.0]) for a in v for b in v for r in range(0, 7)]
+            cls.SMALL = shapes
+        return cls.SMALL
+
     def gen_case(self, rnd, tier, k):
+        n = len(self.small_shapes())
+        total = n * (n + 1) // 2
+        if k % 2 == 0:
+            e = (k // 2) * getattr(self, "nshards", 1) + getattr(self, "shard", 0)
+            if e < total:
+                # unrank the unordered pair (i <= j)
+                i = 0
+                rem = e
+                while rem >= n - i:
+                    rem -= n - i
+                    i += 1
+                a, b = self.small_shapes()[i], self.small_shapes()[i + rem]
+                return dict(a=[a[0], list(a[1])], b=[b[0], list(b[1])], seed=e, small=e, small_total=total)
         mode = rnd.choice([0, 0, 1, 2, 3])
         a = ("rect", gen_rect(rnd, mode)) if rnd.random() < 0.5 else ("circ", gen_circ(rnd, mode))
         if rnd.random() < 0.75:
@@ -171,6 +200,10 @@ class C17(Monitor):
         def bad(kind, detail):
             v.append(dict(kind=kind, idx=-1, cmd="a=%r b=%r" % (a, b), detail=detail, mechanism=None))
         ra, rb = mk(a, "a"), mk(b, "b")
+        sets = collections.defaultdict(set)
+        if "small" in case:
+            sets["exhaustive_indices"].add(case["small"])
+            stats["exhaustive_of_%d" % case["small_total"]] += 1
         # ---- class invariant and corner order of rectangles
         for shape, reg in ((a, ra), (b, rb)):
             if shape[0] == "rect":
@@ -264,7 +297,7 @@ class C17(Monitor):
                     bad("containment-unsound", "%s %r reports containing %s %r, but its point (%r, %r) is outside"
                         % (os_[0], os_[1], is_[0], is_[1], px, py))
                     break
-        return dict(violations=v, nontrivial=nontrivial and not v, stats=stats, sets={},
+        return dict(violations=v, nontrivial=nontrivial and not v, stats=stats, sets=sets,
                     sample=dict(a=a, b=b, a_contains_b=bool(ra.containsRegion(rb)), b_contains_a=bool(rb.containsRegion(ra))))
 
     def thresholds(self, tier):
